@@ -22,6 +22,7 @@ type Case struct {
 	Eq   *jpx.Eq `json:"eq"`
 	Elem any     `json:"elem"`
 	Gen  bool    `json:"gen,omitempty"`
+	Root any     `json:"root,omitempty"` // members of a root that is not the element (it gets the element under "items")
 }
 
 func TestMain(m *testing.M) {
@@ -116,6 +117,36 @@ func Run(cs Case, c *vrt.Ctx) {
 		c.Class("uses-root(match-vs-filter skipped: different roots)")
 	} else if (len(sel) == 1) != got {
 		c.Fail("match-vs-filter", "Script.Match", fmt.Sprintf("%s: Match=%v but the filter selects %d of 1", desc, got, len(sel)), "op:"+cs.Eq.Op)
+	}
+	// the element inside a root that is another value with members of the same names: an
+	// operand that starts at $ reads the root, one that starts at @ reads the element
+	if rm, ok := wx.Dec(cs.Root).(map[string]any); ok && cs.Root != nil {
+		root := map[string]any{}
+		for k, v := range rm {
+			root[k] = v
+		}
+		root["items"] = []any{elem}
+		var rin any = root
+		if cs.Gen {
+			if g := alt.Generify(root, keepAll); g != nil {
+				rin = g
+			}
+		}
+		c.Class("with-distinct-root")
+		if usesRoot(cs.Eq) {
+			c.Class("with-distinct-root:script-reads-it")
+			c.NonTrivial()
+		}
+		var rsel []any
+		rx := jp.R().C("items").F(cs.Eq.Build())
+		if pv, stack := vrt.Catch(func() { rsel = rx.Get(rin) }); pv != nil {
+			c.Fail("panic", "Get(filter, distinct root)", fmt.Sprintf("%v at %s; %s in root %s", pv, stack, desc, canon.String(root, canon.Value)), "op:"+cs.Eq.Op)
+		} else if fixedOnly(cs.Eq) {
+			rwant, rres := jpx.Truth(cs.Eq, elem, root)
+			if rres.DontCare == "" && (len(rsel) == 1) != rwant {
+				c.Fail("wrong-truth-with-root", "Get(filter)", fmt.Sprintf("%s as $.items[0] of %s: the filter selects %d of 1, want %v", desc, canon.String(root, canon.Value), len(rsel), rwant), "op:"+cs.Eq.Op)
+			}
+		}
 	}
 	// the same script read from its text (the parser orders operators by precedence and
 	// regroups what it read right-nested) evaluates like the one that was built
@@ -351,7 +382,17 @@ func drawCase(t *rapid.T) Case {
 		elem = m
 	}
 	e := jpx.DrawEq(t, 3, rapid.IntRange(0, 3).Draw(t, "fixedonly") != 0)
-	return Case{Eq: e, Elem: wx.Enc(elem), Gen: rapid.IntRange(0, 3).Draw(t, "gen") == 0}
+	cs := Case{Eq: e, Elem: wx.Enc(elem), Gen: rapid.IntRange(0, 3).Draw(t, "gen") == 0}
+	if usesRoot(e) || rapid.IntRange(0, 3).Draw(t, "withroot") == 0 {
+		m := map[string]any{}
+		for _, k := range jpx.DataKeys {
+			if rapid.IntRange(0, 3).Draw(t, "roothaskey") != 0 {
+				m[k] = jpx.DrawData(t, 2)
+			}
+		}
+		cs.Root = wx.Enc(m)
+	}
+	return cs
 }
 
 func TestPropRandom(t *testing.T) {
